@@ -96,7 +96,12 @@ pub fn run(outdir: &str, seed: u64, thorough: bool) -> serde_json::Value {
         let nested = r.chance(1, 5);
         let sql = if nested {
             // nested DP sub-query: an aggregate joined back (oracle only, several DP sites)
-            format!("WITH m AS (SELECT AVG(t.amount) AS av FROM orders AS t) SELECT SUM(o.amount - m.av) AS s, COUNT(o.amount) AS c FROM orders AS o CROSS JOIN m")
+            // ... and DP sub-queries of the same shape joined or united (their events are equal as values)
+            r.pick(&["WITH m AS (SELECT AVG(t.amount) AS av FROM orders AS t) SELECT SUM(o.amount - m.av) AS s, COUNT(o.amount) AS c FROM orders AS o CROSS JOIN m",
+                "SELECT a.s AS s1, b.s AS s2 FROM (SELECT 2 * SUM(t.amount) AS s FROM orders AS t) AS a CROSS JOIN (SELECT 2 * SUM(t.price) AS s FROM items AS t) AS b",
+                "SELECT 2 * SUM(t.amount) AS s FROM orders AS t UNION SELECT 2 * SUM(t.price) AS s FROM items AS t",
+                "SELECT a.k AS k, a.s AS s1, b.s AS s2 FROM (SELECT t.status AS k, 2 * SUM(t.amount) AS s FROM orders AS t GROUP BY t.status) AS a JOIN (SELECT t.status AS k, 2 * COUNT(t.id) AS s FROM orders AS t GROUP BY t.status) AS b ON a.k = b.k",
+                "SELECT a.s AS s1, b.s AS s2 FROM (SELECT 1 + AVG(t.age) AS s FROM users AS t) AS a CROSS JOIN (SELECT 1 + AVG(t.income) AS s FROM users AS t) AS b"]).to_string()
         } else { gen_agg_query(&mut r) };
         let p = gen_params(&mut r);
         let rel = match catch_unwind(AssertUnwindSafe(|| to_relation(&w, &sql))) { Ok(Ok(rel)) => rel, Ok(Err(_)) => { st.bump("query_rejected"); continue; } Err(_) => { st.bump("query_panicked"); continue; } };
@@ -130,6 +135,7 @@ pub fn run(outdir: &str, seed: u64, thorough: bool) -> serde_json::Value {
             }
         }
         st.bump(if nested { "nested_dp_subquery" } else { "single_dp_reduce" });
+        if nested { st.bump(&format!("nested_with_{}_noise_sites", sites.len())); }
         // ---- correspondence case (single DP reduce) ----
         if !nested && count_reduces(&rel) == 1 {
             let red = find_reduce(&rel).unwrap();
